@@ -3,11 +3,11 @@
 The quantifier domain is finite (the shipped files) and enumerated completely: states = files.
 Oracle: harness scanner, written independently of tests/check.sh; per file, the behavioural reason
 of the contract is exercised on the real code as well: the real userspace builder must accept the
-file, and a one-line flags manifest naming the file must be applied by the real prepare stage
-(thorough tier).
+file, and a flags manifest naming every profile file by its name must be applied by the real prepare stage to
+a header carrying that name (the "find a profile by its file name" clause, exercised rather than read).
 """
 import json, os, re
-from .. import common as C, scan, gox
+from .. import common as C, scan, gox, cfgx
 
 PROP = 'C19'
 
@@ -107,9 +107,42 @@ def run(tier):
             acc += 1
             if '@{exec_path}' in (scan.blocks(r['out'])[0].header if scan.blocks(r['out']) else ''):
                 fnd.report('attachment-unresolved file=%s' % rel, 'the userspace builder left @{exec_path} in the header of %s' % rel, {'file': rel})
+    # behavioural side 2: the real prepare stage with a manifest that names every profile file
+    seen = set(); lines = []
+    for p in files:
+        f = os.path.basename(p)
+        if f not in seen:
+            seen.add(f); lines.append('%s attach_disconnected,verifmark' % f)
+    flagged = 0
+    for dist in (['arch', 'debian'] if tier != 'thorough' else list(cfgx.DISTS)):
+        ex = cfgx.Explorer(jobs=1, extra_src={'dists/flags/main.flags': '\n'.join(lines) + '\n', 'dists/flags/%s.flags' % dist: ''})
+        try:
+            cfg = cfgx.Cfg(dist, 4, '4.1', 'none', False)
+            r = ex.run_jobs([{'steps': [(cfg, {'VERIF_PREPARE_ONLY': '1', 'VERIF_MAPX': '-'})]}])[0]
+        finally:
+            ex.close()
+        if r['rc'] != 0:
+            fnd.report('prepare-fails-with-full-manifest dist=' + dist, r['out'][-300:], {'dist': dist}); continue
+        tree = r['tree']
+        for p in files:
+            f = os.path.basename(p)
+            name = f[:-len('.apparmor.d')] if f.endswith('.apparmor.d') else f
+            e = tree.get('apparmor.d/' + f)
+            if e is None or e[0] != 'f':
+                continue            # ignored for this distribution / overwritten: C04's subject
+            hs = [b for b in scan.blocks(ex.text(e)) if '//' not in b.path]
+            mine = [b for b in hs if b.name == name]
+            if len(mine) == 1 and 'verifmark' in mine[0].header:
+                flagged += 1
+            elif any(os.path.basename(q) == f and q != p for q in files):
+                continue            # a duplicate base name (reported above): only one of the files lands in the tree
+            else:
+                fnd.report('manifest-not-applied file=%s' % os.path.relpath(p, C.REPO), '%s: a flags manifest naming %s does not reach a header of profile %s (%s): headers %s' % (
+                    dist, f, name, dist, [b.header for b in hs][:3]), {'file': os.path.relpath(p, C.REPO), 'dist': dist})
+    ev.add(manifest_entries_applied=flagged)
     ev.sample({'file': os.path.relpath(files[0], C.REPO), 'header_after_real_userspace_builder': scan.blocks(res[0]['out'])[0].header})
     ev.sample({'abstraction': os.path.relpath(absf[0], aroot)})
-    ev.add(states=len(files) + len(absf), transitions=len(files) * 2 + len(absf), traces_validated_against_impl=acc,
+    ev.add(states=len(files) + len(absf), transitions=len(files) * 2 + len(absf) + flagged, traces_validated_against_impl=acc,
            profile_files=len(files), abstractions=len(absf))
     ev.add(rule='state = one shipped file (the domain is finite and enumerated completely); transition = one contract clause evaluated / one run of the real userspace builder')
     ev.assume('abstraction = file under apparmor.d/abstractions/ outside any *.d directory')
